@@ -17,6 +17,7 @@ func main() {
 		NQuick:    240,
 		NThorough: 2500,
 		Corpus:    corpus,
+		VM:        true,
 		Isolate:   true,
 	})
 }
